@@ -230,6 +230,8 @@ var seqCorpus = [][]string{
 	// DESIGN.md section 7: Replace({2,3}) on {1,2} with a folding subscriber
 	{"newset 1,2", "sub 0", "replace 2,3", "state"},
 	{"newset 1,2", "sub 1", "replace 1,2", "replace -", "replace 0,4", "state"},
+	// Replace whose argument is the set itself / a view of it: must be a no-op that says so
+	{"newset 1,2", "sub 0", "replace-self", "state", "replace-view", "state", "add 3", "replace-self", "state"},
 	{"newset -", "sub 0", "sub 1", "apply 1,2 2,3", "compute - -", "apply - -", "toggle 1", "unsub 0", "addall 0,1", "delall 1,4", "state"},
 	{"newvar", "sub 0", "sub 1", "set 3", "set 3", "compute 1", "defaultto 2", "set 0", "defaultto 2", "unsub 0", "unsub 0", "set 4", "sub 0", "state"},
 	{"newevent", "ontrigger", "sub 1", "set 0", "trigger", "trigger", "ontrigger", "sub 0", "unsub 1", "state"},
@@ -238,7 +240,7 @@ var seqCorpus = [][]string{
 func main() {
 	r := hx.Start()
 	r.MaxSamples = 5
-	r.Rule = "sequential: random histories over reactive Set[int] (universe 0..4: add/del/addall/delall/apply/compute/toggle/replace), " +
+	r.Rule = "sequential: random histories over reactive Set[int] (universe 0..4: add/del/addall/delall/apply/compute/toggle/replace/replace-self/replace-view), " +
 		"Variable[int] (set/compute/defaultto) and Event (trigger/set/ontrigger) with sub/unsub/state; non-trivial = at least one " +
 		"subscription and three delivered notes, distinct by sha256 of the op lines. stress: 4-8 goroutines per round (writers, " +
 		"subscribers with/without initial trigger, unsubscribers) on one Variable / Set / Event; non-trivial = a round in which some " +
